@@ -75,6 +75,12 @@ def rule_layout(ctx: Ctx, rep: Report) -> None:
 
 
 # ---------------------------------------------------------------------------
+def has_bound_text(ctx: Ctx, fi: FuncInfo, bound: str) -> bool:
+    """Some refusal of `<x> > <bound>` (either way round) in fi."""
+    from sa.ranges import refusal_constraints
+    return any((c.op == ">" and str(c.value_text).split(" |")[0] == bound) or (c.op == "<" and str(c.subject) == bound) for c in refusal_constraints(ctx, fi))
+
+
 def rule_compactsize(ctx: Ctx, rep: Report) -> None:
     """C05.compactsize: serialize / _size / parse of var_int are one table and
     only the shortest encoding is accepted."""
@@ -89,15 +95,20 @@ def rule_compactsize(ctx: Ctx, rep: Report) -> None:
             if not (isinstance(st, ast.If) and isinstance(st.test, ast.Compare) and len(st.test.ops) == 1):
                 continue
             t = st.test
-            if not (isinstance(t.left, ast.Name) and t.left.id == fi.params()[0]):
+            left, op, right = t.left, type(t.ops[0]), t.comparators[0]
+            if isinstance(right, ast.Name) and right.id == fi.params()[0]:
+                # `C > i` is `i < C`
+                left, right = right, left
+                op = {ast.Gt: ast.Lt, ast.GtE: ast.LtE, ast.Lt: ast.Gt, ast.LtE: ast.GtE}.get(op, op)
+            if not (isinstance(left, ast.Name) and left.id == fi.params()[0]):
                 continue
-            c = ctx.fold(t.comparators[0], mi)
+            c = ctx.fold(right, mi)
             if not isinstance(c, int):
                 continue
             ret = next((s for s in st.body if isinstance(s, ast.Return)), None)
             if ret is None:
                 continue  # a refusal, not a width
-            ub = c - 1 if isinstance(t.ops[0], ast.Lt) else c if isinstance(t.ops[0], ast.LtE) else None
+            ub = c - 1 if op is ast.Lt else c if op is ast.LtE else None
             if ub is None:
                 continue
             v = ret.value
@@ -145,6 +156,8 @@ def rule_compactsize(ctx: Ctx, rep: Report) -> None:
                 a = ctx.cfg(par).fact_ast[txt]
                 if pol and isinstance(a, ast.Compare) and isinstance(a.ops[0], ast.Eq):
                     marker = ctx.fold(a.comparators[0], mi)
+                    if marker is UNKNOWN:
+                        marker = ctx.fold(a.left, mi)  # written `0xFD == i`
             found[sz] = (marker, mn, c.lineno)
     prev_ub = {2: 0xFC, 4: 0xFFFF, 8: 0xFFFFFFFF}
     mk = {2: 0xFD, 4: 0xFE, 8: 0xFF}
@@ -167,13 +180,13 @@ def rule_compactsize(ctx: Ctx, rep: Report) -> None:
     rep.ob(rule, "parse.number_le_unsigned", bool(ints(atoms)) and all(a.endian == "little" and a.signed is False for a in ints(atoms)),
            pnum.where(), f"{[a.show() for a in ints(atoms)]}")
     # max_size bound
-    ok_max = any(pol and isinstance(t, ast.Compare) and norm(t) == "i > max_size" for t, pol, _ in ctx.refusals(par))
+    ok_max = any(pol and isinstance(t, ast.Compare) and norm(t) == "i > max_size" for t, pol, _ in ctx.refusals(par)) or has_bound_text(ctx, par, "max_size")
     rep.ob(rule, "parse.max_size", ok_max, par.where(), "refusal i > max_size")
     # var_bytes: parse reads exactly the announced length; serialize prefixes len
     vb = ctx.module("btclib.var_bytes")
     vp, vs = vb.func("parse"), vb.func("serialize")
     exact = bool(ctx.calls_to(vp, "btclib.utils.read_exactly")) or any(
-        pol and isinstance(t, ast.Compare) and isinstance(t.ops[0], ast.NotEq) and norm(t.left).startswith("len(") for t, pol, _ in ctx.refusals(vp))
+        pol and isinstance(t, ast.Compare) and isinstance(t.ops[0], ast.NotEq) and (norm(t.left).startswith("len(") or norm(t.comparators[0]).startswith("len(")) for t, pol, _ in ctx.refusals(vp))
     rep.ob(rule, "var_bytes.parse", bool(ctx.calls_to(vp, "btclib.var_int.parse")) and exact,
            vp.where(), "var_bytes.parse = var_int.parse + an exact-length read")
     okvs = any(c.args and norm(c.args[0]).startswith("len(") for c in ctx.calls_to(vs, "btclib.var_int.serialize"))
@@ -282,7 +295,7 @@ def rule_short_read(ctx: Ctx, rep: Report) -> None:
                 continue
             pre = SHORT_READ_PRECHECKED.get(f"{fi.qualname}:read({norm(c.args[0])})")  # keyed without the stream's name
             if pre is not None:
-                ok = any(pol and pre in norm(t) for t, pol, _ in ctx.refusals(fi))
+                ok = any(pol and (pre in norm(t) or (pre.startswith("> ") and norm(t).startswith(pre[2:] + " <"))) for t, pol, _ in ctx.refusals(fi))
                 rep.ob(rule, key, ok, fi.where(c), f"bounded beforehand by a refusal on `{pre}`" if ok else f"the refusal on `{pre}` that bounded this read is gone")
                 continue
             var = None
